@@ -13,10 +13,15 @@ import warnings
 N_WORKERS = int(os.environ.get("VERIF_WORKERS", "16"))
 
 _FUNC = None
+_COV = None   # line coverage of eaopack per worker (diagnostic only, EAO_COV=<data file prefix>)
 
 
 def _init(func_module, func_name, repo):
-    global _FUNC
+    global _FUNC, _COV
+    if os.environ.get("EAO_COV"):
+        import coverage
+        _COV = coverage.Coverage(data_file=os.environ["EAO_COV"], data_suffix=True, include=[os.path.join(repo, "eaopack", "*")])
+        _COV.start()
     for v in ("OMP_NUM_THREADS", "OPENBLAS_NUM_THREADS", "MKL_NUM_THREADS"):
         os.environ[v] = "1"
     warnings.filterwarnings("ignore")
@@ -38,6 +43,8 @@ def _run_chunk(chunk):
         r["_wall"] = time.time() - t0
         r["_pid"] = os.getpid()
         out.append((idx, r))
+    if _COV is not None:
+        _COV.save()
     return out
 
 
